@@ -14,6 +14,7 @@ import contextlib
 import enum
 import functools
 import os
+import sys
 from dataclasses import InitVar, dataclass, field
 from typing import (Annotated, Any, AsyncIterator, Awaitable, Callable, ClassVar, Concatenate, Final, Generator, Generic,
                     Iterator, List, Literal, NamedTuple, NewType, NoReturn, Optional, ParamSpec, Protocol, Type, TypeVar, Union,
@@ -75,6 +76,10 @@ def take0(cb: Callable[[], object]) -> None: ...
 def take1(cb: Callable[[int], int]) -> None: ...
 def takeany(cb: Callable[..., Any]) -> None: ...
 def takeps(cb: Callable[PS, TT], *a: PS.args, **k: PS.kwargs) -> TT: ...
+
+type PA[**P] = Callable[P, int]
+type PB[**P, T] = Callable[P, T]
+type PC[T, **P] = Callable[Concatenate[T, P], T]
 
 GG = 0
 '''
@@ -324,6 +329,18 @@ def _table(A: str, B: str, AN: str) -> dict[str, list[str]]:
                            "def r4(c):", "    if c:", f"        return {A}", "    elif c is None:", "        return bool", "    return int", "def r5(c):", "    return [int, str][c]", "def r6(c):", "    if c:", "        return enum.Enum",
                            "    return enum.IntEnum", "r1(1).nope", "r2(1)().nope", "r4(0).nope"],
         "return_metaclass": ["def m1(c):", "    if c:", "        return int", "    return type", "def m2(c):", "    if c:", "        return HelperCls", "    return enum.EnumMeta", "m1(1).nope"],
+        # ---------------------------------------------------------------- open findings, confined to kinds of their own
+        # (Totality.tla Dev_VersionInfoCompare / Dev_AliasKeyUnhashable / Dev_ParamSpecSubstitution)
+        "version_info_compare": [f"if sys.version_info > {A}:", "    pass", f"v1 = sys.version_info < {A}", f"v2 = sys.version_info >= (3, {A})", f"v3 = sys.version_info <= ({A},)",
+                                 f"v4 = sys.version_info == {A}", f"v5 = sys.version_info != {A}", f"v6 = {A} < sys.version_info", f"v7 = sys.version_info[0] > {A}",
+                                 f"v8 = sys.version_info[:2] >= {A}", f"v9 = sys.platform == {A}", f"v10 = sys.platform > {A}", f"v11 = sys.platform.startswith({A})",
+                                 "if sys.version_info >= (3, 8) and sys.platform != \"win32\":", "    v12 = 1", "v12", f"assert sys.version_info > {A}", f"v13 = sys.version_info > {A} > sys.version_info",
+                                 f"while sys.version_info < {A}:", "    break", f"v14 = [x for x in () if sys.version_info > {A}]", f"v15 = sys.version_info in {A}", f"v16 = sys.version_info is {A}",
+                                 "v17 = sys.version_info >= (3,)", "v18 = sys.version_info < (3, 0, 0, \"final\", 0)", "v19 = sys.version_info > sys.version_info", "v20 = sys.platform == sys.platform"],
+        "paramspec_alias": [f"a1: PA[[int]] = {A}", f"a2: PA[int] = {A}",
+                            f"a3: PA[...] = {A}", f"a4: PA[[]] = {A}", f"a5: PA[int, str] = {A}", f"a6: PB[[int], str] = {A}", f"a7: PB[..., int] = {A}", f"a8: PB[int, str] = {A}", f"a9: PC[int, [str]] = {A}",
+                            f"a10: PA[{AN}] = {A}", f"a11: PA[[{AN}]] = {A}", f"a12: PA = {A}", f"a13: PB[[int, str], PA[[int]]] = {A}", "def use_pa(f: PA[[int]], g: PB[[str], None]) -> PA[...]:", "    return f",
+                            f"use_pa({A}, {A})", "a1(1).nope"],
         # ---------------------------------------------------------------- constructs the unchanged tree is known to deviate on
         # (kept out of every other kind; Totality.tla Dev_MatchValueNotLiteral / Dev_RecursiveStrAlias / Dev_EllipsisDetail)
         "match_value_dotted": ["match GG:", "    case HelperCls.a:", "        pass", "    case zz_undefined.attr:", "        pass"],
